@@ -13,16 +13,15 @@ Section Closure.
   Hypothesis P_throw : forall A e, P (@throw A e).
   Hypothesis P_bind : forall A B (m : M A) (f : A -> M B), P m -> (forall a, P (f a)) -> P (bind m f).
   Hypothesis P_emit_g : forall e, P (emit_g e).
-  Hypothesis P_emit_u : forall e, P (emit_u e).
+  Hypothesis P_emit_u : forall e, plain e = true -> P (emit_u e).
   Hypothesis P_get_ts : P get_ts.
   Hypothesis P_mark_dirty : P mark_dirty.
-  Hypothesis P_set_failed : forall m, P (set_failed m).
-  Hypothesis P_upd_reg_cleanup : forall id f,
-    P (upd_reg (fun t => mkT (failed t) ((id, f) :: cleanups t) (ctx t) (cleaning t))).
-  Hypothesis P_upd_reg_ctx : P (upd_reg (fun t => mkT (failed t) (cleanups t) true (cleaning t))).
-  Hypothesis P_upd_pop : forall rest, P (upd_cleanup (fun t => mkT (failed t) rest (ctx t) true)).
-  Hypothesis P_upd_cancel : P (upd_cleanup (fun t => mkT (failed t) (cleanups t) false true)).
-  Hypothesis P_upd_done : P (upd_cleanup (fun t => mkT (failed t) (cleanups t) (ctx t) false)).
+  Hypothesis P_signal : forall k m id, P (signal k m id).
+  Hypothesis P_register : forall id f, P (register id f).
+  Hypothesis P_context_call : P context_call.
+  Hypothesis P_begin_cleanup : P begin_cleanup.
+  Hypothesis P_pop_cleanup : P pop_cleanup.
+  Hypothesis P_end_cleanup : P end_cleanup.
   Hypothesis P_failOnError : forall l, P (failOnError l).
   Hypothesis P_note_draw : forall v, P (note_draw v).
   Hypothesis P_drawBits : forall n, P (drawBits n).
@@ -33,9 +32,9 @@ Section Closure.
 
   Ltac pa :=
     repeat first
-      [ apply P_ret | apply P_throw | apply P_emit_g | apply P_emit_u | apply P_get_ts | apply P_mark_dirty
-      | apply P_set_failed | apply P_upd_reg_cleanup | apply P_upd_reg_ctx | apply P_upd_pop | apply P_upd_cancel
-      | apply P_upd_done | apply P_failOnError | apply P_note_draw | apply P_drawBits
+      [ apply P_ret | apply P_throw | apply P_emit_g | apply P_emit_u; reflexivity | apply P_get_ts | apply P_mark_dirty
+      | apply P_signal | apply P_register | apply P_context_call | apply P_begin_cleanup | apply P_pop_cleanup
+      | apply P_end_cleanup | apply P_failOnError | apply P_note_draw | apply P_drawBits
       | apply P_group_d | apply P_bind; [|intros]
       | assumption
       | match goal with H : forall a, P (_ a) |- _ => apply H end ].
@@ -104,9 +103,8 @@ Section Closure.
     Lemma P_cleanup_loop : forall fuel last, P (cleanup_loop crun fuel last).
     Proof.
       induction fuel as [|f IH]; intros last; cbn [cleanup_loop]; [apply P_throw|].
-      apply P_bind; [apply P_get_ts|intros t].
-      destruct (cleanups t) as [|[id c] rest]; [apply P_ret|].
-      apply P_bind; [apply P_upd_pop|intros _]. apply P_bind; [apply P_emit_u|intros _].
+      apply P_bind; [apply P_pop_cleanup|intros c].
+      destruct c as [c|]; [|apply P_ret].
       apply P_try; [apply P_crun|]. intros [v|e]; [apply IH|].
       destruct e; try (apply P_bind; [apply P_ret|intros; apply IH]).
       - apply P_bind; [destruct (internal_msg m); pa|intros; apply IH].
@@ -114,24 +112,22 @@ Section Closure.
     Qed.
     Lemma P_cleanup : P (cleanup LF crun).
     Proof.
-      unfold cleanup. apply P_bind; [apply P_get_ts|intros t].
-      apply P_bind; [destruct (ctx t); pa|intros _].
-      apply P_bind; [apply P_upd_cancel|intros _].
+      unfold cleanup. apply P_bind; [apply P_begin_cleanup|intros _].
       apply P_bind; [apply P_cleanup_loop|intros r].
-      apply P_bind; [apply P_upd_done|intros _]. apply P_ret.
+      apply P_bind; [apply P_end_cleanup|intros _]. apply P_ret.
     Qed.
     Lemma P_custom_end r : P (custom_end r).
     Proof.
       unfold custom_end.
       assert (H : P (_ <- emit_u (UCustomEnd (match r with Ok _ => 0 | Err _ => 1 end)) ;;
                    match r with Ok v => _ <- failOnError SCustomFOE ;; ret v | Err e => throw e end)).
-      { apply P_bind; [apply P_emit_u|intros _]. destruct r; pa. }
+      { apply P_bind; [apply P_emit_u; destruct r; reflexivity|intros _]. destruct r; pa. }
       destruct r as [v|[]]; try exact H. apply P_throw.
     Qed.
     Lemma P_custom_att (body : M val) : P body -> P (custom_att LF crun body).
     Proof.
       intros Hb. unfold custom_att. apply P_fresh. unfold custom_inner.
-      apply P_bind; [apply P_emit_u|intros _].
+      apply P_bind; [apply P_emit_u; reflexivity|intros _].
       apply P_try; [apply P_try; [exact Hb|apply P_custom_end]|intros r].
       unfold custom_handler.
       assert (H : P (
@@ -154,7 +150,7 @@ Section Closure.
       (forall i s, P (run_act i s)) -> P (run_action id run_act i s).
     Proof.
       intros Ha. unfold run_action. apply P_try_w.
-      - apply P_try_w; [apply Ha|]. intros r wa. apply P_bind; [apply P_emit_u|intros _]. destruct r; pa.
+      - apply P_try_w; [apply Ha|]. intros r wa. apply P_bind; [apply P_emit_u; reflexivity|intros _]. destruct r; pa.
       - intros r wa. destruct r as [v|e]; [pa|]. destruct e; pa.
         destruct (failed a); pa. destruct (Nat.eqb _ _); pa. destruct (internal_msg m); pa.
     Qed.
@@ -164,7 +160,7 @@ Section Closure.
       intros Ha. induction tries as [|t IH]; intros s; cbn [exec_action]; [apply P_throw|].
       apply P_bind.
       - apply P_group. apply P_bind; [apply P_group, P_genIndex|intros i].
-        apply P_bind; [apply P_emit_u|intros _]. apply P_run_action. exact Ha.
+        apply P_bind; [apply P_emit_u; reflexivity|intros _]. apply P_run_action. exact Ha.
       - intros r. destruct r; pa; try apply IH.
     Qed.
     Lemma P_run_repeat id K nacts (chk : val -> M unit) (run_act : nat -> val -> M val) s0 :
@@ -204,11 +200,11 @@ Section Closure.
       - apply P_group; assumption.
       - pa.
       - apply P_bind; [apply P_group; assumption|intros v]. apply P_bind; [apply P_note_draw|intros _; apply H0].
-      - apply P_bind; [apply P_emit_u|intros _]. destruct kind; pa.
+      - apply P_bind; [apply P_signal|intros _]. destruct kind; pa.
       - pa.
-      - apply P_bind; [apply P_upd_reg_cleanup|intros _]. apply P_bind; [apply P_emit_u|intros _; assumption].
-      - apply P_bind; [apply P_get_ts|intros t]. destruct (ctx t); [|destruct (cleaning t)]; pa; apply H.
-      - apply P_bind; [apply P_get_ts|intros t]. apply P_bind; [apply P_emit_u|intros _]. apply H.
+      - apply P_bind; [apply P_register|intros _; assumption].
+      - apply P_bind; [apply P_context_call|intros b]. apply H.
+      - apply P_bind; [apply P_get_ts|intros t]. apply P_bind; [apply P_emit_u; reflexivity|intros _]. apply H.
       - pa.
       - destruct nacts; [apply H1|]. apply P_bind; [|intros sfin; apply H1].
         apply P_run_repeat.
